@@ -1154,9 +1154,13 @@ class Process(StateMachine, persistence.Savable, metaclass=ProcessStateMachineMe
 
     def _do_pause(self, state_msg: Optional[MessageType], next_state: Optional[process_states.State] = None) -> bool:
         """Carry out the pause procedure, optionally transitioning to the next state first"""
+        pausing = self._pausing  # the deferred pause that is being carried out (None: a pause between two steps)
         try:
             if next_state is not None:
                 self.transition_to(next_state)
+                if pausing is not None and self._pausing is not pausing:
+                    # withdrawn by a listener of that transition: play(), or a kill() that took its place
+                    return False
 
             if state_msg is None:
                 msg_text = ''
